@@ -39,8 +39,8 @@ def cls_tokens(v_or_cls):
 
 
 def val_tokens(v):
-    from pytezos.michelson.types import (AddressType, BigMapType, ListType, MapType, NatType, OptionType, PairType, StringType, TicketType,
-                                         UnitType)
+    from pytezos.michelson.types import (AddressType, BigMapType, BoolType, LambdaType, ListType, MapType, NatType, OptionType, OrType, PairType,
+                                         SetType, StringType, TicketType, UnitType)
     if v is None:
         return ['?']
     if isinstance(v, NatType):
@@ -51,6 +51,19 @@ def val_tokens(v):
         return ['S' + (str(v).encode().hex() or '-')]
     if isinstance(v, UnitType):
         return ['U']
+    if isinstance(v, BoolType):
+        return ['B1' if bool(v) else 'B0']
+    if isinstance(v, LambdaType):
+        return ['LAM'] + cls_tokens(type(v).args[0]) + cls_tokens(type(v).args[1])
+    if isinstance(v, OrType):
+        if v.is_left():
+            return ['left'] + val_tokens(v.items[0]) + cls_tokens(type(v).args[1])
+        return ['right'] + cls_tokens(type(v).args[0]) + val_tokens(v.items[1])
+    if isinstance(v, SetType):
+        out = [f'E{len(v.items)}'] + cls_tokens(type(v).args[0])
+        for x in v.items:
+            out += val_tokens(x)
+        return out
     if isinstance(v, PairType):
         return ['P'] + val_tokens(v.items[0]) + val_tokens(v.items[1])
     if isinstance(v, TicketType):
@@ -105,7 +118,9 @@ def sums(stack):
 
 
 def type_has_ticket(cls):
-    return 'ticket' in json.dumps(cls.as_micheline_expr())
+    def walk(e):      # a lambda value is code: its argument types say nothing about what it holds
+        return e['prim'] == 'ticket' or (e['prim'] != 'lambda' and any(walk(a) for a in e.get('args', [])))
+    return walk(cls.as_micheline_expr())
 
 
 class Real:
@@ -278,24 +293,31 @@ def run(ctx):
     quick = ctx.tier == 'quick'
     ctx.extra['rule'] = (
         'programs of 1-3 segments (two ticketer addresses) over TICKET/READ_TICKET/SPLIT_TICKET/JOIN_TICKETS/PAIR/UNPAIR/CAR/CDR/SOME/NONE/'
-        'IF_NONE/CONS/NIL/ITER/MAP/DUP/DUP n/SWAP/DIG/DUG/DROP/DIP/DIP n/PUSH/EMPTY_MAP/EMPTY_BIG_MAP/GET/GET_AND_UPDATE/UPDATE/FAILWITH; '
+        'IF_NONE/CONS/NIL/ITER/MAP/DUP/DUP n/SWAP/DIG/DUG/DROP/DIP/DIP n/PUSH (incl. set / map literals, sorted or not)/EMPTY_MAP/EMPTY_BIG_MAP/'
+        'GET/GET_AND_UPDATE/UPDATE/LEFT/RIGHT/IF_LEFT/EMPTY_SET/MEM/LAMBDA/EXEC/APPLY/FAILWITH; '
         'type-directed generation (amounts 0,1,2,3,5,2^64,10^30; contents nat/string/unit/pair nat string; splits that add up, with a zero '
-        'part, or not; joins of matching / other-ticketer / other-contents / other-type tickets; tickets stored in lists, maps, big_maps) '
+        'part, or not; joins of matching / other-ticketer / other-contents / other-type tickets; tickets stored in lists, maps, big_maps, on either '
+        'side of an or, at the second / third type-argument position of pairs / options / lists of ors) '
         'plus a share of type-blind instructions; non-trivial = at least one ticket is minted and a ticket instruction, a copy '
         'instruction or a container instruction acts afterwards')
     ctx.assumptions += [
-        'map keys are atoms (nat/string); contents are atoms or pairs of atoms; no lambdas, sets, or-types in the modelled set',
-        'big_map values live in the in-memory diff only (the offline context has no stored big_map); ITER over a big_map with removed keys, '
-        'DUP 0, and BigMapType.update on an existing key while its comprehensions walk the removed keys (C15) are reported as `unmodelled` by the '
-        'model and not compared',
-        'conservation is proved for executions whose UPDATE / GET_AND_UPDATE store values of the declared value type (ghost flag `typedStores`): '
-        'pytezos has no dynamic check there, the Michelson type checker rejects such programs; the oracle scopes conservation / copy findings '
-        'that follow an ill-typed store under a separate key prefix and does not report them',
+        'map keys and set elements are atoms (nat/string); contents are atoms or pairs of atoms; ITER / MAP over an `or` value and MAP over a '
+        'non-empty set (neither is Michelson; the real loop pushes the Undefined marker / rebuilds a set) are `unmodelled`',
+        'big_map values live in the in-memory diff only (the offline context has no stored big_map); ITER over a big_map with removed keys '
+        'and DUP 0 are reported as `unmodelled` by the model and not compared',
+        'conservation is proved (a) for every program accepted by the static checker `wellTyped` (Michelson rules; MAP only with a body that '
+        'gives back the element type, because pytezos returns an empty source collection unchanged) and (b) for every other execution whose '
+        'UPDATE / GET_AND_UPDATE store values of the declared value type (ghost flag `typedStores`): pytezos has no dynamic check there, the '
+        'Michelson type checker rejects such programs; the oracle scopes conservation / copy findings that follow an ill-typed store under a '
+        'separate key prefix and does not report them; for every compared program the checker accepts, the run must not show an ill-typed store',
+        'lambda values on the final stack are compared by class only (their code is observed through EXEC); the static checker rejects '
+        'LAMBDA / EXEC / APPLY, so programs with lambdas are covered by the ghost-guarded theorem only',
         'TicketType.create is wrapped in-process to log mints (no hook in /repo)',
     ]
-    n_prog = 2000 if quick else 18000
+    n_prog = 1600 if quick else 16000
     real = Real()
     cases, lines, impl, pend = [], [], [], []
+    ill_typed = {}
     try:
         for pi in range(n_prog + len(G.CORPUS)):
             noise = rng.choice([0.0, 0.0, 0.05, 0.15])
@@ -311,7 +333,8 @@ def run(ctx):
             text = ' || '.join(f'[{tk[:6]}] ' + ' ; '.join(G.instr_text(i) for i in prog) for tk, prog in segs)
             outcome, found, state = evaluate(real, segs)
             ps = [p for _, prog in segs for p in G.prims(prog)]
-            nontriv = 'TICKET' in ps and any(p in ps for p in ('SPLIT_TICKET', 'JOIN_TICKETS', 'DUP', 'DUPN', 'GET', 'GET_AND_UPDATE', 'UPDATE', 'CONS', 'ITER', 'MAP', 'READ_TICKET'))
+            nontriv = 'TICKET' in ps and any(p in ps for p in ('SPLIT_TICKET', 'JOIN_TICKETS', 'DUP', 'DUPN', 'GET', 'GET_AND_UPDATE', 'UPDATE', 'CONS', 'ITER', 'MAP', 'READ_TICKET',
+                                                               'LEFT', 'RIGHT', 'IF_LEFT', 'EXEC', 'APPLY'))
             ctx.case({'program': text if len(text) < 500 else text[:500] + '…'}, nontrivial=nontriv)
             ctx.count('segments', len(segs))
             ctx.count('outcome', outcome[0])
@@ -331,6 +354,7 @@ def run(ctx):
             lines.append(G.line_of(segs))
             impl.append(got)
             pend.append((segs, found))
+            ill_typed[text] = bool(state.get('ill_typed_store'))
 
         model = ctx.model(lines)
         shrunk = set()
@@ -351,7 +375,7 @@ def run(ctx):
         real.close()
 
     if model is not None:
-        for text, a, b in zip(cases, impl, model):
+        for (text, a, b), (segs, found) in zip(zip(cases, impl, model), pend):
             if b in ('unmodelled', 'fuel'):
                 ctx.count('model', b)
                 continue
@@ -359,6 +383,14 @@ def run(ctx):
             if b.startswith('ok '):
                 parts = b.split(' ')
                 ctx.count('typedStores', parts[1])
-                b = ' '.join(['STACK'] + parts[2:])
+                ctx.count('accepted_by_static_checker', parts[2])
+                # `C20.type_preservation`: a program the checker accepts never performs an ill-typed store — in the mirror
+                # (ghost flag) and, through the correspondence, in the real run (the oracle's own observation)
+                if parts[2] == '1' and parts[1] != '1':
+                    ctx.mismatch('static-typing', {'program': text[:600]}, 'typedStores=1', 'typedStores=0 for a program accepted by wellTyped')
+                if parts[2] == '1' and ill_typed[text]:
+                    ctx.mismatch('static-typing', {'program': text[:600]}, 'real run stores a value of another class than the map declares',
+                                 'accepted by wellTyped')
+                b = ' '.join(['STACK'] + parts[3:])
             if a != b:
                 ctx.mismatch('ticket-interpreter', {'program': text[:600]}, a[:400], b[:400])
